@@ -123,12 +123,23 @@ def body_of(fn):
     return None
 
 
+_FULL = [False]  # when set, member accesses are rendered with their base object (`value.resize`), not only the member name
+
+
 def txt(n):
     """approximate source text of an expression"""
     if n is None:
         return ""
     k = n.get("kind")
     inner = n.get("inner", []) or []
+    if _FULL[0] and k in ("MemberExpr", "CXXDependentScopeMemberExpr", "UnresolvedMemberExpr") and inner and isinstance(inner[0], dict) \
+            and inner[0].get("kind") != "CXXThisExpr":
+        _FULL[0] = False
+        try:
+            member = txt(n)
+        finally:
+            _FULL[0] = True
+        return "%s.%s" % (txt(inner[0]), member)
     if k in ("ImplicitCastExpr", "ParenExpr", "ExprWithCleanups", "MaterializeTemporaryExpr", "CXXBindTemporaryExpr", "ConstantExpr", "CXXFunctionalCastExpr") and inner:
         return txt(inner[-1])
     if k in ("CXXStaticCastExpr", "CStyleCastExpr", "CXXReinterpretCastExpr", "CXXConstCastExpr") and inner:
@@ -806,72 +817,99 @@ def rule_reader_overwrites(out, tier):
         if name in OVERWRITE_EXCEPTIONS:
             out.ok(rid, key, "%s:%d" % (rel, line), "table exception: " + OVERWRITE_EXCEPTIONS[name])
             continue
-        body = body_of(fn)
-        verdict, why, at = None, "", line
         fixed = "std::array" in dtype or "FixedNDArray" in dtype
+        # On every path through the reader, the first operation that touches the destination is classified
+        # (the shape of the tests does not matter: if/else, early return, negated condition)
+        cp = CxxPaths({})
+        _FULL[0] = True
+        try:
+            paths = [q for q in cp.paths(fn) if q.outcome != "throw"]
+        finally:
+            _FULL[0] = False
+        if cp.overflow or not paths:
+            out.undecided(rid, key, "%s:%d" % (rel, line), "cannot enumerate the paths of " + name)
+            continue
+        word = re.compile(r"(?<![\w.:>])%s(?![\w])" % re.escape(dname))
+        neutral = ("data", "size", "has_value", "begin", "end", "empty", "capacity", "cbegin", "cend")
 
-        def touches(n):
-            return any(x.get("kind") == "DeclRefExpr" and (x.get("referencedDecl") or {}).get("name") == dname for x in walk(n))
+        def classify(kind, t):
+            """overwrite | accumulate | element | neutral | None (does not touch the destination)"""
+            if not word.search(t):
+                return None, ""
+            u = t.strip()
+            m = re.match(r"^%s\s*(?:\.|->)\s*(\w+)\(" % re.escape(dname), u)
+            if m:
+                nm = m.group(1)
+                if nm in OVERWRITING:
+                    return "overwrite", nm
+                if nm in ACCUMULATING:
+                    return "accumulate", nm
+                if nm in neutral:
+                    return "neutral", nm
+                return "element", nm
+            if re.match(r"^%s\s*=[^=]" % re.escape(dname), u) or re.match(r"^operator=\(\s*%s\s*," % re.escape(dname), u):
+                return "overwrite", "operator="
+            m = re.match(r"^operator(\+=|\|=)\(\s*%s\s*," % re.escape(dname), u) or re.match(r"^%s\s*(\+=|\|=)" % re.escape(dname), u)
+            if m:
+                return "accumulate", "operator" + m.group(1)
+            m = re.match(r"^([\w:.<>&, ]+?)\((.*)\)$", u, re.S)
+            if m:
+                cname = m.group(1).split("::")[-1].split(".")[-1]
+                args = [x.strip() for x in _split_args(m.group(2))]
+                if dname in args and (cname.startswith("Read") or cname.endswith("resize") or cname.endswith("Resize")):
+                    return "overwrite", "handed-to:" + cname
+            return "element", u[:60]
 
-        def member_ops(n):
-            res = []
-            for x in walk(n):
-                if x.get("kind") in ("CXXMemberCallExpr", "CallExpr", "CXXOperatorCallExpr"):
-                    inner = x.get("inner") or []
-                    if not inner:
-                        continue
-                    callee = inner[0]
-                    cname = txt(callee)
-                    base = ""
-                    if callee.get("kind") in ("MemberExpr", "CXXDependentScopeMemberExpr") and callee.get("inner"):
-                        base = txt(callee["inner"][0])
-                    if callee.get("kind") == "CXXDependentScopeMemberExpr":
-                        cname = callee.get("member", cname)
-                    if base == dname:
-                        res.append((cname, x))
-                    elif x.get("kind") == "CXXOperatorCallExpr" and len(inner) >= 2 and txt(inner[1]) == dname:
-                        res.append((cname, x))
-                    elif dname in [txt(a) for a in inner[1:]] and (cname.startswith("Read") or cname.endswith("resize")):
-                        res.append(("handed-to:" + cname, x))
-                if x.get("kind") == "BinaryOperator" and x.get("opcode") == "=" and txt((x.get("inner") or [{}])[0]) == dname:
-                    res.append(("operator=", x))
-            return res
-
-        for st in body.get("inner", []) or []:
-            if not touches(st):
+        verdict, why = True, ""
+        seen = set()
+        for q in paths:
+            first = None
+            for kind, t, _nl in q.events:
+                c, what = classify(kind, t)
+                if c in (None, "neutral"):
+                    continue
+                first = (c, what)
+                break
+            if any(classify(k2, t2)[0] == "accumulate" for k2, t2, _ in q.events) and (first is None or first[0] != "overwrite"):
+                verdict, why = False, "the destination is accumulated into (%s) on a path where it was not cleared, resized or assigned first: entries of a previously read value survive in a reused destination" % ", ".join(
+                    classify(k2, t2)[1] for k2, t2, _ in q.events if classify(k2, t2)[0] == "accumulate")
+                break
+            if first is None:
+                if fixed:
+                    seen.add("fixed-size destination")
+                    continue
+                verdict, why = False, "a path through %s (%s) returns without assigning, clearing or resizing the destination: a reused destination keeps the previous value" % (
+                    name, " && ".join(("" if v else "!") + "(" + t + ")" for t, v in q.lits) or "unconditional")
+                break
+            if first[0] == "overwrite":
+                seen.add("first operation: " + first[1])
                 continue
-            ops = member_ops(st)
-            top_is_cond = st.get("kind") in ("IfStmt",) and "IsTriviallySerializable" not in json.dumps(st.get("inner", [{}])[0])[:3000]
-            is_loop = st.get("kind") in ("ForStmt", "CXXForRangeStmt", "WhileStmt")
-            names = [o[0] for o in ops]
-            at = st.get("_line", line)
-            if any(nm in ACCUMULATING for nm in names):
-                verdict, why = False, "the first operation on the destination is an accumulating one (%s): entries of a previously read value survive in a reused destination" % ", ".join(n for n in names if n in ACCUMULATING)
-                break
-            if top_is_cond and any(nm in OVERWRITING for nm in names):
-                # both branches assign (optional: value = tmp / value = nullopt) is fine
-                branches = (st.get("inner") or [])[1:]
-                if len(branches) == 2 and all(any(o[0] in OVERWRITING for o in member_ops(b)) for b in branches):
-                    verdict, why = True, "both branches assign the destination"
-                    break
-                verdict, why = False, "the destination is resized/cleared only conditionally: when the condition is false a reused destination keeps elements of the previous value"
-                break
-            if any(nm in OVERWRITING or nm.startswith("handed-to:") for nm in names) and not is_loop:
-                verdict, why = True, "first operation: " + ", ".join(names)
-                break
-            if fixed:
-                verdict, why = True, "fixed-size destination: every element is assigned"
-                break
-            if is_loop:
-                verdict, why = False, "elements are written in a loop before the destination was resized or cleared"
-                break
-            # reading straight into the destination's storage (ReadBytes(value.data(), ...)) counts as element assignment after a resize
-        if verdict is None:
-            out.undecided(rid, key, "%s:%d" % (rel, line), "no operation on the destination found")
-        elif verdict:
-            out.ok(rid, key, "%s:%d" % (rel, at), why)
+            if first[0] == "element" and fixed:
+                seen.add("fixed-size destination: elements assigned in place")
+                continue
+            verdict, why = False, "elements of the destination are written (%s) on a path where it was not resized, cleared or assigned first" % first[1]
+            break
+        if verdict:
+            out.ok(rid, key, "%s:%d" % (rel, line), "%d paths; %s" % (len(paths), "; ".join(sorted(seen))))
         else:
-            out.bad(rid, key, "%s:%d" % (rel, at), why)
+            out.bad(rid, key, "%s:%d" % (rel, line), why)
+
+
+def _split_args(s):
+    res, d, cur = [], 0, ""
+    for ch in s:
+        if ch in "(<[{":
+            d += 1
+        elif ch in ")>]}":
+            d -= 1
+        if ch == "," and d == 0:
+            res.append(cur)
+            cur = ""
+        else:
+            cur += ch
+    if cur.strip():
+        res.append(cur)
+    return res
 
 
 # -------------------------------------------------------------------------------------
